@@ -159,10 +159,24 @@ def run(ctx):
               f"pathlib.Path({fpar}).unlink(missing_ok=True)" in body and f"os.path.isfile({fpar})" in body and "raise RuntimeError" in body, None, ens_f)
     cl = m.func(SL, "_consecutive_length")
     ctx.saw_func(cl)
-    uses = any(isinstance(c, ast.Call) and call_name(c) == "_consecutive_length" for c in ast.walk(rfn.node))
-    cbody = src(cl.node)
+    # recognised shape: guard `0 not in lst` raising, counter from 0, `while True: if c + 1 not in lst: return c + 1; c += 1`
+    lst = cl.params()[0]
+    shape = None
+    whiles = [n for n in walk_no_nested(cl.node) if isinstance(n, ast.While)]
+    if len(whiles) == 1 and src(whiles[0].test) == "True":
+        ifs = [n for n in whiles[0].body if isinstance(n, ast.If)]
+        incs = [n for n in whiles[0].body if isinstance(n, ast.AugAssign) and isinstance(n.op, ast.Add) and src(n.value) == "1"]
+        if len(ifs) == 1 and len(incs) == 1 and isinstance(incs[0].target, ast.Name):
+            cn = incs[0].target.id
+            init0 = any(isinstance(n, ast.Assign) and src(n.targets[0]) == cn and src(n.value) == "0" for n in cl.node.body)
+            t_ok = src(ifs[0].test) == f"{cn} + 1 not in {lst}"
+            r_ok = len(ifs[0].body) == 1 and isinstance(ifs[0].body[0], ast.Return) and src(ifs[0].body[0].value) == f"{cn} + 1"
+            z_ok = any(isinstance(n, ast.If) and src(n.test) == f"0 not in {lst}" and any(isinstance(x, ast.Raise) for x in n.body) for n in cl.node.body)
+            shape = init0 and t_ok and r_ok and z_ok
+    uses = [c for c in ast.walk(rfn.node) if isinstance(c, ast.Call) and call_name(c) == "_consecutive_length"]
     ctx.check("R26.2", f"{rfn.key}::sample count = longest run of indices starting at 0",
-              uses and "0 not in" in cbody and "res + 1 not in" in cbody and "return res + 1" in cbody, None, rfn)
+              (shape and len(uses) == 1) if shape is not None else None,
+              "_consecutive_length is not the recognised gap scan (not decided)" if shape is None else None, rfn)
 
     # ------------------------------------------------------------------ R26.3
     ctx.rule("R26.3", "index discipline: each task names its files by the global index and takes the data by the local index; the "
@@ -179,9 +193,24 @@ def run(ctx):
         data = [s_ for s_ in ast.walk(loops[0]) if isinstance(s_, ast.Subscript) and src(s_.value) in store]
         ctx.check("R26.3", key, len(names) == 1 and src(names[0].args[1]) == gi and bool(data) and all(src(d.slice) == li for d in data),
                   f"name index `{src(names[0].args[1]) if names else None}`, data indices {[src(d) for d in data]}", fi, loops[0])
-    body = src(rfn.node)
-    ctx.check("R26.3", f"{rfn.key}::reader partitions the global count over the tasks",
-              "range(*shareRange(n_samples, ntask, rank))" in body and "get_MPI_params_from_comm(comm)" in body, None, rfn)
+    rcfg = cfg_of(rfn)
+    rrd = rcfg.reaching_defs(rfn.params())
+    sr = [(n, c) for n, c in find_nodes(rcfg, lambda q: isinstance(q, ast.Call) and call_name(q) == "shareRange")]
+    okk = None
+    if len(sr) == 1 and len(sr[0][1].args) == 3 and all(isinstance(a, ast.Name) for a in sr[0][1].args):
+        n_, c_ = sr[0]
+        def defsrc(nm):
+            ds = rrd[n_.id].get(nm, frozenset())
+            if len(ds) != 1:
+                return None
+            dn = rcfg.nodes[next(iter(ds))]
+            return src(dn.ast.value) if dn.kind == "stmt" and isinstance(dn.ast, ast.Assign) else None
+        a0, a1, a2 = [defsrc(a.id) for a in c_.args]
+        okk = a0 is not None and a0.startswith("_consecutive_length(") and a1 is not None and a1 == a2 and a1.startswith("get_MPI_params_from_comm(")
+        # positions 0 and 1 of the unpacked (ntask, rank, master)
+        tg = [rcfg.nodes[next(iter(rrd[n_.id][c_.args[1].id]))].ast.targets[0]]
+        okk = okk and isinstance(tg[0], ast.Tuple) and [src(e) for e in tg[0].elts[:2]] == [c_.args[1].id, c_.args[2].id]
+    ctx.check("R26.3", f"{rfn.key}::reader partitions the global count over the tasks", okk, None, rfn)
 
 
 def tmp_vs_pattern(ctx, rule, m):
